@@ -20,7 +20,7 @@ LEVEL = "proof"
 ASSUMPTIONS = [
     "request-line: version optional, method = token without lower-case letters, target = 1*(ASCII octet except SP CR LF) with a balanced IP-literal (specification decisions shared with C10)",
     "named tolerances of the reference: leading empty lines ignored; obs-fold joined; field names containing '_' dropped; empty Transfer-Encoding list elements ignored; Content-Length absent = 0; whitespace (SP HTAB VT FF CR) around the request line ignored (RFC 9112 section 3 MAY); repeated Host/Content-Length/Content-Type refused; any Transfer-Encoding other than a single chunked is 501; Content-Length above 4300 digits refused; the body size limit is tested before chunk syntax",
-    "persistence is observed with an application that always supplies Content-Length; HTTP/1.0 keep-alive is honoured only when keep-alive is the sole connection option (conservative)",
+    "persistence is observed with an application that always supplies Content-Length; HTTP/1.0 keep-alive is honoured only when keep-alive is the sole connection option (conservative); the only deviation switch left in the reference is dv_trailer (open finding F10), used to classify, never to excuse anything else",
     "the theorems are about the hand-written models (Model/Parser.v, Receiver.v, ChanSeq.v, and Task.bh_conn of Model/Task.v for the persistence decision); K-chanseq and the reference search are sampled, not exhaustive",
     "the composition of the layer theorems over a whole pipelined stream (C01Observe.C01_full_dev) is stated, not proved: it is what K-chanseq + the search test",
 ]
